@@ -11,7 +11,7 @@ os.makedirs(dst, exist_ok=True)
 shutil.copy("%s/mutant%s.diff" % (src, i), dst + "/patch.diff")
 shutil.copy("%s/mutant%s_demo_test.go" % (src, i), dst + "/demo_test.go.txt")
 shutil.copy("%s/mutant%s.md" % (src, i), dst + "/notes.md")
-out = subprocess.run(["/verif/tools/try_mutant.sh", dst + "/patch.diff", prop], capture_output=True, text=True).stdout.strip()
+out = subprocess.run(["/verif/tools/try_mutant_wt.sh", dst + "/patch.diff", prop], capture_output=True, text=True).stdout.strip()
 rc = out.split()[0] if out else "?"
 keys = out.split("violations:", 1)[1].strip().rstrip(";").split(";") if "violations:" in out else []
 first = open(dst + "/notes.md").read().strip().splitlines()
